@@ -173,6 +173,41 @@ fn survivors_violation(old: &T, new: &T) -> Option<String> {
     None
 }
 fn fc(v: Vec<T>) -> T { S::FnCall(v.into_iter().map(Box::new).collect()) }
+/// completeness clause with IDENTICALLY shaped siblings ("up to exchange among identically shaped siblings"): `sub` is a
+/// subsequence of `sup` (children only removed, or only added).  Every child of the shorter list survives, so its words
+/// must be carried from / to a child of the same shape of the longer list, distinct children to distinct children, in order.
+fn dup_survivors_violation(old: &[T], new: &[T]) -> Option<String> {
+    let o = fc(old.to_vec());
+    let n = fc(new.to_vec());
+    let ow: Vec<u64> = (0..size(&o)).map(|i| 1000 + i as u64).collect();
+    let got = match build_state_storage_patch_plan(o.clone(), n.clone()) {
+        Some(plan) => apply_state_storage_patch_plan(&ow, &plan),
+        None => ow.clone(),
+    };
+    // word ranges of the children
+    let ranges = |l: &[T]| { let mut off = 0usize; l.iter().map(|c| { let r = (off, off + size(c)); off = r.1; r }).collect::<Vec<_>>() };
+    let (orr, nrr) = (ranges(old), ranges(new));
+    // every new child must hold the words of a same-shaped old child, or zeros; the carried ones in increasing order of source
+    let mut src_of: Vec<Option<usize>> = vec![];
+    for (j, c) in new.iter().enumerate() {
+        let w = &got[nrr[j].0..nrr[j].1];
+        let hit = (0..old.len()).find(|&i| shape_eq(&old[i], c) && w == &ow[orr[i].0..orr[i].1]);
+        src_of.push(hit);
+    }
+    let carried: Vec<usize> = src_of.iter().flatten().copied().collect();
+    if !carried.windows(2).all(|w| w[0] < w[1]) {
+        return Some(format!("plan_wf[sibling order / one source per destination]: sources {carried:?}"));
+    }
+    // the shorter list is a subsequence of the longer one: all of ITS children survive
+    let need = old.len().min(new.len());
+    if carried.len() < need {
+        return Some(format!("build_patches_recursive::ensures[completeness up to exchange among identically shaped siblings: {} of {} surviving children carried; new words {:?}]", carried.len(), need, got));
+    }
+    None
+}
+fn subsequences(l: &[T]) -> Vec<Vec<T>> {
+    (0..(1u32 << l.len())).map(|m| l.iter().enumerate().filter(|(i, _)| m & (1 << i) != 0).map(|(_, x)| x.clone()).collect()).collect()
+}
 fn distinct_lists(maxlen: usize) -> Vec<Vec<T>> { distinct_lists_from(maxlen, vec![S::Mem(1), S::Mem(2), S::Feed(1), S::Delay { len: 1 }, S::Delay { len: 2 }, S::Mem(3)]) }
 /// children that are function calls of SIMILAR but pairwise distinct shape (they share leaves, so their pair scores are
 /// positive and larger than the score of an exact leaf pair), next to plain leaves
@@ -292,6 +327,39 @@ fn main() {
         // removed, the rest survives in place, fresh leaves (score 0 against everything) are appended.  The back-track
         // then meets only true pairs with a positive score, and whether the fresh leaves are inserted before the
         // survivors are paired is decided by the score table alone.
+        Some("survivors-search-dups") => {
+            let max: usize = args[2].parse().unwrap();
+            let pool = vec![S::Mem(1), S::Feed(1), S::Delay { len: 2 }, S::Mem(2)];
+            let mut lists: Vec<Vec<T>> = vec![vec![]];
+            let mut frontier: Vec<Vec<T>> = vec![vec![]];
+            for _ in 0..max {
+                let mut next = vec![];
+                for l in &frontier { for x in &pool { let mut m = l.clone(); m.push(x.clone()); next.push(m); } }
+                lists.extend(next.iter().cloned());
+                frontier = next;
+            }
+            let mut tried = 0u64;
+            for l in &lists {
+                for sub in subsequences(l) {
+                    if sub.is_empty() { continue; }
+                    for (o, n) in [(l.clone(), sub.clone()), (sub.clone(), l.clone())] {
+                        tried += 1;
+                        if let Some(c) = dup_survivors_violation(&o, &n) {
+                            println!("FOUND old={} new={} clause={c} tried={tried}", show(&fc(o)), show(&fc(n)));
+                            return;
+                        }
+                    }
+                }
+            }
+            println!("NONE tried={tried} lists={}", lists.len());
+        }
+        Some("survivors-dups") => {
+            let (o, n) = (parse(&args[2]), parse(&args[3]));
+            let (S::FnCall(oc), S::FnCall(nc)) = (&o, &n) else { println!("HOLDS"); return; };
+            let ol: Vec<T> = oc.iter().map(|b| (**b).clone()).collect();
+            let nl: Vec<T> = nc.iter().map(|b| (**b).clone()).collect();
+            match dup_survivors_violation(&ol, &nl) { Some(c) => println!("FAILS {c}"), None => println!("HOLDS") }
+        }
         Some("survivors-search-similar") => {
             let max: usize = args[2].parse().unwrap();
             let lists = distinct_lists_from(max, similar_pool());
